@@ -125,13 +125,21 @@ Definition n_assigned (i : rinfo) : Z := Z.of_nat (length (r_assigned i)).
 Definition new_info (s : rspec) : rinfo :=
   mkInfo s (names_of s) (s_reserved s) [] [] (perr_of s).
 
-Definition update_info (i : rinfo) (s : rspec) : rinfo :=
+(* allocatedByAssignedPods: what the assigned pods hold in the given names *)
+Definition alloc_by_assigned (nm : list Z) (l : list preq) : res :=
+  fold_left (fun acc (q : preq) => radd acc (rmask (snd q) nm)) l [].
+
+(* UpdateReservation / UpdatePod.  [old = true] is the behaviour before fix 75e0c17 (Allocated
+   masked with the new names instead of recomputed); it is kept only for the regression Example
+   in Properties.v *)
+Definition update_info_gen (old : bool) (i : rinfo) (s : rspec) : rinfo :=
   let nm := names_of s in
   mkInfo s nm
          (if is_nil (s_reserved s) then [] else rmask (s_reserved s) nm)
-         (rmask (r_allocated i) nm)
+         (if old then rmask (r_allocated i) nm else alloc_by_assigned nm (r_assigned i))
          (r_assigned i)
          (perr_of s).
+Definition update_info (i : rinfo) (s : rspec) : rinfo := update_info_gen false i s.
 
 Definition has_assigned (u : Z) (i : rinfo) : bool :=
   existsb (fun q : preq => fst q =? u) (r_assigned i).
@@ -425,19 +433,6 @@ Definition node_stable_op (c : cache) (o : cop) : bool :=
                    end
   | CDelete u n => match find_info u (infos c) with
                    | Some i => (r_node i =? 0) || (r_node i =? n)
-                   | None => true
-                   end
-  | _ => true
-  end.
-
-(* an update does not add a restricted dimension in which assigned pods hold requests *)
-Definition grow_safe (i : rinfo) (nm : list Z) : bool :=
-  forallb (fun k => memZ k (r_names i)
-                    || (sumZ (map (fun q : preq => getv k (snd q)) (r_assigned i)) =? 0)) nm.
-Definition no_grow_op (c : cache) (o : cop) : bool :=
-  match o with
-  | CUpdate _ _ s => match find_info (s_uid s) (infos c) with
-                   | Some i => grow_safe i (names_of s)
                    | None => true
                    end
   | _ => true
